@@ -294,6 +294,39 @@ Definition lp_eval (A : list (list Z)) (owt : list Z) (C : list (list Z)) (cap i
   (map2 (fun a w => w * dotZ a x) A owt,
    map3 (fun c cp w => w * Z.max 0 (dotZ c x - cp)) C cap iwt, []).
 
+(** ** position-dependent problems (the value of a member depends on the SLOT of the decision vector it occupies):
+    a reported evaluation then belongs to ONE ordering of the decision — reporting the sorted / de-duplicated /
+    re-ordered decision together with the values of the original rows is visible *)
+(** slot-weighted table lookup: sum_a s[a] * t[x[a]] (slots beyond the weights / the vector contribute nothing) *)
+Definition slin (s t x : list Z) : Z := sumZ (map2 (fun w e => w * look t e) s x).
+(** table problem with one slot-weight vector per objective (SW), inequality (SC) and equality (SD) constraint *)
+Definition tps_eval (p : tprob) (SW SC SD : list (list Z)) (x : list Z) : evalT :=
+  let objs := map2 (fun j w => nth j (towt p) 1 * (slin (nth j SW []) w x + (if Nat.eqb j 0 then pairsum (tP p) x else 0)))
+                   (seq 0 (length (tW p))) (tW p) in
+  let ineq := map2 (fun j c => let v := slin (nth j SC []) c x - nth j (tcap p) 0 in
+                               nth j (tiwt p) 1 * (if tclip p then Z.max 0 v else v))
+                   (seq 0 (length (tC p))) (tC p) in
+  let eqs := map2 (fun j d => nth j (tewt p) 1 * Z.abs (slin (nth j SD []) d x - nth j (ttgt p) 0))
+                  (seq 0 (length (tD p))) (tD p) in
+  (objs, ineq, eqs).
+(** vector encodings (real / integer / binary), exact: every variable is first quantised to a multiple of 1/qn
+    (floor(x*qn)/qn; the identity on integers), then obj = wt * (A x), ineq = wt * max(0, C x - cap),
+    eq = wt * |D x - tgt| with weights that differ per variable *)
+Definition evalQ := (list Q * list Q * list Q)%type.
+Definition quantQ (qn : Z) (v : Q) : Q := (inject_Z (Qfloor (v * inject_Z qn)) / inject_Z qn)%Q.
+Definition dotZQ (a : list Z) (x : list Q) : Q := sumQ (map2 (fun c v => (inject_Z c * v)%Q) a x).
+Definition lpq_eval (qn : Z) (A : list (list Z)) (owt : list Z) (C : list (list Z)) (cap iwt : list Z)
+    (D : list (list Z)) (tgt ewt : list Z) (x : list Q) : evalQ :=
+  let xq := map (quantQ qn) x in
+  (map2 (fun a w => (inject_Z w * dotZQ a xq)%Q) A owt,
+   map3 (fun c cp w => (inject_Z w * Qmax' 0 (dotZQ c xq - inject_Z cp))%Q) C cap iwt,
+   map3 (fun d tg w => (inject_Z w * Qabs' (dotZQ d xq - inject_Z tg))%Q) D tgt ewt).
+Definition evalQ_eqb (a b : evalQ) : bool :=
+  ql_eqb (fst (fst a)) (fst (fst b)) && ql_eqb (snd (fst a)) (snd (fst b)) && ql_eqb (snd a) (snd b).
+(** the truthfulness clause of the result monitor: every reported row is the evaluation of the reported decision *)
+Definition truthful_b (ev : list Z -> evalT) (X : list (list Z)) (R : list evalT) : bool := list_eqb evalT_eqb (map ev X) R.
+Definition truthfulQ_b (ev : list Q -> evalQ) (X : list (list Q)) (R : list evalQ) : bool := list_eqb evalQ_eqb (map ev X) R.
+
 (** ** comparison helpers for the shards *)
 Definition opt3_eqb (a : option (list Z * list Z * evalT)) (s : list Z) (r : evalT) : bool :=
   match a with Some (s', _, r') => zl_eqb s' s && evalT_eqb r' r | None => false end.
